@@ -485,33 +485,44 @@ def chunks : List Char → List (List Char)
 
 def isSpaceChunk (ch : List Char) : Bool := ch.all (· = ' ')
 
-/-- the greedy loop of `TextWrapper._wrap_chunks` (`break_long_words=False`, `drop_whitespace=True`):
-`first` is true while no line has been produced (`initial_indent=""`, width `w`), later lines are indented by
-`hang` blanks and hold `w - hang` characters.  Fuel = number of chunks + 1. -/
-def wrapLines (w hang : Nat) : Nat → Bool → List (List Char) → List (List Char)
+/-- the inner loop of `_wrap_chunks`: move chunks onto the current line while they fit -/
+def takeFit (avail : Nat) : List (List Char) → Nat → List (List Char) → List (List Char) × List (List Char)
+  | cur, _, [] => (cur, [])
+  | cur, len, ch :: r =>
+    if len + ch.length ≤ avail then takeFit avail (cur ++ [ch]) (len + ch.length) r else (cur, ch :: r)
+
+/-- `if self.drop_whitespace and cur_line and cur_line[-1].strip() == '': del cur_line[-1]` -/
+def dropTrailingSpace (cur : List (List Char)) : List (List Char) :=
+  match cur.getLast? with
+  | some ch => if isSpaceChunk ch then cur.dropLast else cur
+  | none => cur
+
+/-- one line of `_wrap_chunks`: the chunks that fit, and — `_handle_long_word` with
+`break_long_words=False` — a chunk that does not fit an empty line goes on it anyway -/
+def lineSplit (avail : Nat) (cs : List (List Char)) : List (List Char) × List (List Char) :=
+  let r := takeFit avail [] 0 cs
+  match r.1, r.2 with
+  | [], ch :: rr => ([ch], rr)
+  | _, _ => r
+
+/-- the greedy loop of `TextWrapper._wrap_chunks` (`break_long_words=False`, `drop_whitespace=True`),
+lines as lists of chunks: `first` is true while no line has been produced (width `w`, and a leading
+blank chunk is kept); later lines hold `w - hang` characters.  Fuel = number of chunks + 1. -/
+def wrapChunks (w hang : Nat) : Nat → Bool → List (List Char) → List (List (List Char))
   | 0, _, _ => []
   | _, _, [] => []
-  | n + 1, first, cs =>
-    let avail := if first then w else w - hang
-    -- drop a leading blank chunk on every line but the first
-    let cs := match cs with
-      | ch :: r => if !first && isSpaceChunk ch then r else cs
-      | [] => []
-    -- take chunks while they fit
-    let rec take (cur : List (List Char)) (len : Nat) : List (List Char) → List (List Char) × List (List Char)
-      | [] => (cur, [])
-      | ch :: r => if len + ch.length ≤ avail then take (cur ++ [ch]) (len + ch.length) r else (cur, ch :: r)
-    let (cur, rest) := take [] 0 cs
-    -- a chunk that does not fit an empty line goes on it anyway
-    let (cur, rest) := match cur, rest with
-      | [], ch :: r => ([ch], r)
-      | _, _ => (cur, rest)
+  | n + 1, first, ch0 :: r0 =>
+    -- drop a leading blank chunk on every line but the first, then fill the line
+    let sp := lineSplit (if first then w else w - hang) (if !first && isSpaceChunk ch0 then r0 else ch0 :: r0)
     -- drop a trailing blank chunk
-    let cur := match cur.getLast? with
-      | some ch => if isSpaceChunk ch then cur.dropLast else cur
-      | none => cur
-    if cur.isEmpty then wrapLines w hang n first rest
-    else ((if first then [] else List.replicate hang ' ') ++ cur.flatten) :: wrapLines w hang n false rest
+    let cur := dropTrailingSpace sp.1
+    if cur.isEmpty then wrapChunks w hang n first sp.2
+    else cur :: wrapChunks w hang n false sp.2
+
+/-- the lines as text: `initial_indent=""`, `subsequent_indent=" " * hang` -/
+def renderLines (hang : Nat) : List (List (List Char)) → List (List Char)
+  | [] => []
+  | l :: ls => l.flatten :: ls.map (fun x => List.replicate hang ' ' ++ x.flatten)
 
 /-- `str.expandtabs(8)`: a tab advances to the next multiple of eight columns; the column restarts
 after a line break -/
@@ -530,7 +541,7 @@ def munge (text : List Char) : List Char :=
 a list of lines -/
 def fill (w hang : Nat) (text : List Char) : List (List Char) :=
   let cs := chunks (munge text)
-  wrapLines w hang (cs.length + 1) true cs
+  renderLines hang (wrapChunks w hang (cs.length + 1) true cs)
 
 def ljust (n : Nat) (s : List Char) : List Char := s ++ List.replicate (n - s.length) ' '
 
